@@ -536,7 +536,13 @@ pub fn replay_tying(case: &Value, rep: &mut Report, rng: &mut Rng) {
         .iter()
         .map(|l| match l[0].as_str().unwrap() {
             "dense" => json!({"kind": "dense", "out": l[1], "act": "tanh", "bias": l[2]}),
-            k => json!({"kind": k, "filters": l[1], "kernel": [3, 3], "stride": [1, 1], "padding": [1, 1], "act": "tanh"}),
+            k => {
+                let (kh, kw) = match l.get(3) {
+                    Some(kk) => (kk[0].as_u64().unwrap(), kk[1].as_u64().unwrap()),
+                    None => (3, 3),
+                };
+                json!({"kind": k, "filters": l[1], "kernel": [kh, kw], "stride": [1, 1], "padding": [(kh - 1) / 2, (kw - 1) / 2], "act": "tanh"})
+            }
         })
         .collect();
     let width = if spatial { 16 } else { block[0][1].as_u64().unwrap() as usize };
@@ -586,6 +592,22 @@ pub fn replay_tying(case: &Value, rep: &mut Report, rng: &mut Rng) {
         Ok(_) => {
             if let Some(d) = copies_equal(&net, period) {
                 rep.mismatch("C10", "copies_differ_after_training", &id, json!({"diff": d}), case);
+                return;
+            }
+        }
+    }
+    // one more step whose gradients are all exactly zero (the target is the current prediction): a stateful optimizer
+    // still moves every copy by its own moments, and the copies must be coupled again
+    rep.checks += 1;
+    let x1 = data.inputs[0].clone();
+    match guarded(|| {
+        let t1 = net.predict(&x1);
+        net.learn(&vec![&x1], &vec![&t1], None, 1, 1, None)
+    }) {
+        Err(e) => rep.mismatch("C10", "training_panicked", &id, json!({"panic": e, "phase": "zero gradient step"}), case),
+        Ok(_) => {
+            if let Some(d) = copies_equal(&net, period) {
+                rep.mismatch("C10", "copies_differ_after_a_zero_gradient_step", &id, json!({"diff": d}), case);
             }
         }
     }
